@@ -49,6 +49,8 @@ func init() {
 			switch name := concStr(args[0], "sxOptN name"); name {
 			case "preempt-bound":
 				ps.sched.preemptBound = int(asInt64(args[1]))
+			case "tax-hash-bits":
+				ps.taxHashBits = int(asInt64(args[1]))
 			default:
 				panic(pathEnd{StEngineError, "unknown sxOptN " + name})
 			}
